@@ -602,6 +602,8 @@ class Analysis:
                         st[('lensym', dk)] = sym
                     rel.pop(dk, None)
                     return
+        elif callee == 'core::default::Default::default' and not args and rng is not None and (dty or {}).get('k') in ('int', 'bool'):
+            val = (0, 0)  # the default of every integer type (and `false`)
         elif callee in ('[T]::split_at', '[T]::split_at_mut', 'core::slice::<impl [T]>::split_at',
                         'core::slice::<impl [T]>::split_at_mut') and len(args) == 2:
             # (a, b) = s.split_at(mid): len(a) = mid, len(b) = len(s) - mid   (mid <= len(s) is the call's own check)
@@ -760,7 +762,19 @@ class Analysis:
             tgt_name, tgt_inst = self.resolve_callee(blk, callee)
             if tgt_name is not None and self.depth < 12:
                 self._last_summary_key = None
-                r, est = self.summary(tgt_name, tgt_inst, args, av, st)
+                # a call whose result only feeds the condition of a `debug_assert!` is not there in a release build: what can
+                # panic inside it is the assertion's business (listed with it), not a site of the function under analysis
+                collect_ = True
+                if self.collector is not None and not dest['p']:
+                    dc_ = self.__dict__.setdefault('_dbg_only', {})
+                    if dest['l'] not in dc_:
+                        try:
+                            from rules.panics import feeds_only_debug_assert
+                            dc_[dest['l']] = feeds_only_debug_assert(self.fn, {dest['l']})
+                        except Exception:
+                            dc_[dest['l']] = False
+                    collect_ = not dc_[dest['l']]
+                r, est = self.summary(tgt_name, tgt_inst, args, av, st, collect=collect_)
                 val = (r or rng) if rng is not None else None
                 lk_ = getattr(self, '_last_summary_key', None)
                 if lk_ is not None and rng is not None:
@@ -1054,7 +1068,7 @@ class Analysis:
             return callee, None
         return None, None
 
-    def summary(self, callee, callee_inst, args, av, st):
+    def summary(self, callee, callee_inst, args, av, st, collect=True):
         cf = self.facts.fns[callee]
         if cf.argc != len(args):
             return None, None
@@ -1063,7 +1077,7 @@ class Analysis:
             if k3 and k3[0] == 'inv':
                 fields[k3[1:]] = v3
         key = (callee, callee_inst, tuple(av), tuple(sorted(fields.items())),
-               tuple(self.len_of_ref_operand(st, a) if op_place(a) is not None else None for a in args))
+               tuple(self.len_of_ref_operand(st, a) if op_place(a) is not None else None for a in args), bool(collect))
         if key in self.summaries:
             self._last_summary_key = key
             return self.summaries[key]
@@ -1079,7 +1093,7 @@ class Analysis:
                     if ln != (0, (1 << 63) - 1):
                         lens[i + 1] = ln
         sub = Analysis(self.facts, cf, FnCtx(params, fields, self.ctx.used, lens), self.summaries, self.depth + 1,
-                       inst=callee_inst, collector=self.collector)
+                       inst=callee_inst, collector=self.collector if collect else None)
         self.summaries[key] = (sub.ret, sub.established)
         self.summaries[('rel', ) + key] = set(getattr(sub, 'ret_le_params', ()) or ())
         self._last_summary_key = key
